@@ -70,6 +70,9 @@ func NewLDBDatabase(file string, cache int, handles int) (*LDBDatabase, error) {
 }
 
 func newLevelDBInstance(file string, cache int, handles int) (*leveldb.DB, error) {
+	if simDB, simErr, ok := simOpen(file); ok {
+		return simDB, simErr
+	}
 	db, err := leveldb.OpenFile(file, &opt.Options{
 		BlockSize:              1 * opt.MiB,
 		OpenFilesCacheCapacity: handles,
@@ -99,6 +102,10 @@ func (db *LDBDatabase) Put(key []byte, value []byte) error {
 	if !db.inited {
 		return ErrLDBInit
 	}
+	if err := simPreWrite(db.db, "put"); err != nil {
+		return err
+	}
+	defer simPostWrite(db.db, "put")
 	return db.db.Put(key, value, nil)
 }
 
@@ -129,6 +136,10 @@ func (db *LDBDatabase) Delete(key []byte) error {
 	if !db.inited {
 		return ErrLDBInit
 	}
+	if err := simPreWrite(db.db, "delete"); err != nil {
+		return err
+	}
+	defer simPostWrite(db.db, "delete")
 	return db.db.Delete(key, nil)
 }
 
@@ -178,6 +189,10 @@ func (b *ldbBatch) Put(key, value []byte) error {
 
 func (b *ldbBatch) Write() error {
 	b.logger.Debugf("batchWrite. length: %d ", b.size)
+	if err := simPreWrite(b.db, "batch"); err != nil {
+		return err
+	}
+	defer simPostWrite(b.db, "batch")
 	return b.db.Write(b.b, nil)
 }
 
